@@ -232,6 +232,7 @@ type PNet struct {
 	bootW    int
 	offers, offersAccepted int
 	imageSeq int
+	torn     int // images whose value log ends in a torn record
 	crashes  int
 	restarts int
 	reads    int
@@ -270,6 +271,33 @@ func copyDir(src, dst string) error {
 	return nil
 }
 
+// tearValueLog appends the beginning of a record (a header promising more bytes
+// than follow) to the newest value-log file of a database image.
+func tearValueLog(dir string, salt int) {
+	ents, err := os.ReadDir(dir)
+	if err != nil {
+		return
+	}
+	last := ""
+	for _, e := range ents {
+		if strings.HasSuffix(e.Name(), ".vlog") && e.Name() > last {
+			last = e.Name()
+		}
+	}
+	if last == "" {
+		return
+	}
+	f, err := os.OpenFile(filepath.Join(dir, last), os.O_APPEND|os.O_WRONLY, 0644)
+	if err != nil {
+		return
+	}
+	defer f.Close()
+	// badger v1.6 entry header: key length, value length (big endian uint32), expiry (uint64), meta, user meta
+	hdr := []byte{0, 0, 0, 24, 0, 0, 1, byte(salt), 0, 0, 0, 0, 0, 0, 0, 0, 0, 0}
+	f.Write(hdr)
+	f.Write([]byte("evt_torn-record"))
+}
+
 func (pn *PNet) hook(kind string) {
 	if pn.booting {
 		if kind == "event" {
@@ -290,6 +318,12 @@ func (pn *PNet) hook(kind string) {
 			img := filepath.Join(pn.o.Dir, fmt.Sprintf("img_t%d_%d", pn.w.traceNo, pn.imageSeq))
 			if err := copyDir(n.dir, img); err != nil {
 				panic(fmt.Sprintf("persist: image copy failed: %v", err))
+			}
+			if pn.imageSeq%2 == 0 {
+				// the kill lands in the middle of this write: the value log ends with the
+				// first bytes of a record that was never completed
+				tearValueLog(img, pn.w.rng.Intn(1<<30))
+				pn.torn++
 			}
 			panic(crashSignal{image: img, kind: kind, k: pn.writes[n.num]})
 		}
@@ -727,6 +761,7 @@ func runPersist(o *Opts) *Summary {
 	s := &Summary{Mode: "persist", Extra: map[string]interface{}{}}
 	var w *World
 	totCrash, totRestart, totReads, totWrites := 0, 0, 0, 0
+	totTorn := 0
 	totOffers := 0
 	kinds := map[string]int{}
 	for t := 0; t < o.Traces; t++ {
@@ -870,6 +905,7 @@ func runPersist(o *Opts) *Summary {
 				"crashes": pn.crashes, "restarts": pn.restarts, "db_writes": totWrites})
 		}
 		hg.VerifDBWriteHook = nil
+		totTorn += pn.torn
 		for _, n := range cn.nodes {
 			n.store.Close()
 			os.RemoveAll(n.dir)
@@ -886,6 +922,7 @@ func runPersist(o *Opts) *Summary {
 	s.Traces = o.Traces
 	s.Lines = w.lines
 	s.Extra["crash_points"] = totCrash
+	s.Extra["crash_images_with_torn_last_record"] = totTorn
 	s.Extra["restarts"] = totRestart
 	s.Extra["store_reads_checked"] = totReads
 	s.Extra["db_writes"] = totWrites
